@@ -28,7 +28,7 @@ HEADER = "From Coq Require Import List. Import ListNotations.\nFrom Yaqs Require
 SOLVERS = [("TJM", 1), ("TJM", 2), ("MCWF", 1), ("Lindblad", 1)]
 
 
-def run_solver(solver, order, L, state_kw, H, nm, obs_specs, T=0.2, dt=0.05, num_traj=1):
+def run_solver(solver, order, L, state_kw, H, nm, obs_specs, T=0.2, dt=0.05, num_traj=1, state_obj=None):
     from mqt.yaqs import simulator
     from mqt.yaqs.core.data_structures.networks import MPS
     from mqt.yaqs.core.data_structures.simulation_parameters import AnalogSimParams, Observable
@@ -41,7 +41,7 @@ def run_solver(solver, order, L, state_kw, H, nm, obs_specs, T=0.2, dt=0.05, num
     p = AnalogSimParams(obs, elapsed_time=T, dt=dt, order=order, solver=solver, sample_timesteps=True, show_progress=False,
                         threshold=1e-13, num_traj=num_traj)
     with common.time_limit(200):
-        simulator.run(MPS(L, **state_kw), H, p, nm, parallel=False)
+        simulator.run(MPS(L, **state_kw) if state_obj is None else state_obj, H, p, nm, parallel=False)
     return np.array([np.real(o.results) for o in obs])
 
 
@@ -159,7 +159,13 @@ def evolve_oracle(args):
     ntraj = 1
     if procs and solver != "Lindblad":
         return None  # stochastic solvers with noise are compared through their outcome trees in C01
-    res = run_solver(solver, order, L, kw, H, nm, specs, T=T, dt=dt, num_traj=ntraj)
+    st, hist = None, ""
+    if args.get("reuse_after"):
+        # history: the SAME initial-state object served an earlier run of another back-end
+        st = MPS(L, **kw)
+        run_solver(args["reuse_after"], 1, L, kw, H, None, specs[:1], T=0.04, dt=0.02, state_obj=st)
+        hist = f", initial-state object reused after a {args['reuse_after']} run"
+    res = run_solver(solver, order, L, kw, H, nm, specs, T=T, dt=dt, num_traj=ntraj, state_obj=st)
     v0 = dense.mps_dense(MPS(L, **kw))
     v0 = v0 / np.linalg.norm(v0)
     ops = [dense.op_on(L, {i: dense.PAULI[p]}) if isinstance(i, int) else dense.op_on(L, {i[0]: dense.PAULI[p[0]], i[1]: dense.PAULI[p[1]]})
@@ -181,7 +187,7 @@ def evolve_oracle(args):
     tol = 2e-4 if solver == "Lindblad" else 5e-3
     if worst > tol:
         return (f"{solver} order {order}: observable {where[1]} at column {where[0]} differs from the dense solution by {worst:.3e} "
-                f"(initial state {kw}, {args['ham']}, noise {[(p['name'], p['sites']) for p in procs]})")
+                f"(initial state {kw}, {args['ham']}, noise {[(p['name'], p['sites']) for p in procs]}{hist})")
     return None
 
 
@@ -271,7 +277,8 @@ def search(ctx):
         if procs and (k // 4) % 3 == 0:  # a switched-off channel listed first, on another site than the next entry
             procs.insert(0, {"name": "lowering", "sites": [(procs[0]["sites"][0] + 1) % L], "strength": 0.0})
         plan.append(dict(L=L, solver=solver, order=order, state=kw, ham=str(ctx.rng.choice(["ising", "heisenberg", "inhomogeneous", "inhomogeneous"])), hseed=int(ctx.rng.integers(0, 10**6)),
-                         J=float(ctx.rng.uniform(0.5, 1.2)), g=float(ctx.rng.uniform(0.3, 0.9)), procs=procs))
+                         J=float(ctx.rng.uniform(0.5, 1.2)), g=float(ctx.rng.uniform(0.3, 0.9)), procs=procs,
+                         reuse_after=[None, "Lindblad", None, "MCWF", None, "TJM"][k % 6]))
     for a in plan:
         try:
             why = evolve_oracle(a)
